@@ -20,9 +20,17 @@ ID = "C17"
 RULE = ("BLE requests: exhaustive fragment sizes 8..64 x body lengths 0..200 (11457 cells) + realistic sizes {20,155,244,496,512} x lengths <=5000, plain and encrypted; "
         "BLE responses: ALL fragmentations (first piece + compositions of the rest) of bodies <=9 bytes, random above, wrong tid / missing continuation flag / unknown status / "
         "truncated headers; CoAP: all batches of 1..4 (quick) / 1..6 (thorough) items over 5 outcome kinds with varying body lengths, plus malformed tails. "
-        "non-trivial = distinct (stream, shape) where shape = (fs,len) cell, fragmentation composition, or outcome vector")
+        "BLE client histories: 2..6 requests on ONE real AIOHomeKitBleakClient (fake bleak backend only: ATT_MTU 23..517 reported / not yet acquired, GATT table with handles, iid descriptors, "
+        "max_write_without_response_size) through ble_request / char_write / char_read / drive_pairing_state_machine over 1..3 characteristics, plain and encrypted in every order, body lengths around "
+        "every fragment boundary of both modes: every GATT write fits the size negotiated FOR THAT REQUEST, a conformant accessory reassembles it, the caller gets the accessory's answer; "
+        "CoAP connection batches: get_accessory_info + histories of write_/read_characteristics, subscribe_to, unsubscribe_from with 1..6 items in any order over databases of every permission mix x format: "
+        "the accessory receives for the i-th item its own instance id with its own value (request-side attribution), nothing dropped silently, then per-item outcomes / values under the right id. "
+        "non-trivial = distinct (stream, shape) where shape = (fs,len) cell, fragmentation composition, outcome vector, plain/encrypted order x MTU class, or per-item permission vector")
 TRUSTED = ["cryptography ChaCha20Poly1305 as the reference accessory cipher", "Python struct"]
-ASSUMPTIONS = ["GATT transport (bleak) is replaced by a scripted characteristic: write_gatt_char records, read_gatt_char returns the next scripted fragment"]
+ASSUMPTIONS = ["GATT transport (bleak) is replaced by a scripted characteristic: write_gatt_char records, read_gatt_char returns the next scripted fragment",
+               "client histories: bleak's platform backend is replaced (BleakClient(backend=...)); the size one GATT write may carry is max(ATT_MTU, 100) - 3 (HAP-BLE minimum ATT_MTU 100 when the stack reports less or nothing), "
+               "or the characteristic's max_write_without_response_size if the stack reports a larger one",
+               "CoAP connection batches: the aiocoap client context is replaced by an in-memory accessory; the session keys are installed directly (pair-verify is C01's subject)"]
 EXPLANATION = "Lean theorems C17_* over models of encode_pdu/decode_pdu/_read_pdu/CoAP batch codec; differential tie on the real functions"
 
 
@@ -364,6 +372,8 @@ def run(ctx: Ctx, driver: Driver):
     compare_with_model(ctx, "coap-enc", cases, outs, lines, driver)
     attribution_oracle(ctx)
     coap_batch_end_to_end(ctx)
+    ble_client_histories(ctx)
+    coap_connection_batches(ctx)
     loop.close()
 
 
@@ -556,6 +566,13 @@ def replay(ctx, driver, c):
             data = bytes.fromhex(c["data"]) if c["data"] != "-" else b""
             out = impl_coap_dec(c.get("start", 0), data)
             compare_with_model(ctx, "coap-dec", [c], [out], [f"coap.dec {c.get('start', 0)} {hx(data)}"], driver)
+        elif c["stream"] in ("ble-client", "coap-conn"):
+            try:
+                bad = loop.run_until_complete((_ble_client_history if c["stream"] == "ble-client" else _coap_conn_history)(c))
+            except Exception as e:  # noqa: BLE001
+                return f"history could not be completed: {type(e).__name__}: {e}"[:300]
+            if bad:
+                return bad[1]
     finally:
         loop.close()
     if len(ctx.violations) > nv:
@@ -563,3 +580,799 @@ def replay(ctx, driver, c):
     if len(ctx.mismatches) > nm:
         return "model/implementation mismatch: " + str(ctx.mismatches[-1])[:300]
     return None
+
+
+# ====================================================================================================================
+# BLE: histories of requests on ONE real AIOHomeKitBleakClient.  Only what bleak's backend provides is faked (address,
+# mtu_size, the GATT table with handles / descriptors / max_write_without_response_size, write_gatt_char,
+# read_gatt_char, read_gatt_descriptor); the fragment size of every request comes from the client wrapper itself.
+# ====================================================================================================================
+HAP_MIN_ATT_MTU = 100  # HAP-BLE: controller and accessory support an ATT_MTU of at least 100; a stack that reports less (or nothing yet) is taken at that minimum
+ATT_HEADER = 3
+AEAD_TAG = 16
+HAP_BASE = "-0000-1000-8000-0026bb765291"
+PAIRING_SERVICE = "00000055" + HAP_BASE
+PAIRING_CHARS = ("0000004c" + HAP_BASE, "0000004e" + HAP_BASE, "00000050" + HAP_BASE)
+IID_DESCRIPTOR = "dc46f0fe-81d2-4616-b5d9-6abdd796939a"
+BLE_ENTRIES = ("request", "request", "char_write", "char_read", "pairing")
+
+
+def _tlv8(tag, val):
+    val = bytes(val)
+    if not val:
+        return bytes([tag, 0])
+    return b"".join(bytes([tag, len(val[o:o + 255])]) + val[o:o + 255] for o in range(0, len(val), 255))
+
+
+def _tlv8_parse(buf):
+    """independent TLV8 reader: [(tag, value)], consecutive items of one tag after a 255-byte item are one value; None if malformed"""
+    out, off, last = [], 0, None
+    buf = bytes(buf)
+    while off < len(buf):
+        if off + 2 > len(buf) or off + 2 + buf[off + 1] > len(buf):
+            return None
+        t, ln = buf[off], buf[off + 1]
+        v = buf[off + 2:off + 2 + ln]
+        if last is not None and last[0] == t and last[2] == 255:
+            last[1] += v
+            last[2] = ln
+        else:
+            last = [t, v, ln]
+            out.append(last)
+        off += 2 + ln
+    return [(t, v) for t, v, _ in out]
+
+
+def _pattern(n, salt):
+    return bytes((i * 7 + salt * 13 + n) % 256 for i in range(n))
+
+
+def _session_key(seed, n, direction):
+    return bytes((seed * 17 + n * 29 + direction * 101 + j * 3) % 256 for j in range(32))
+
+
+class _BleAccessory:
+    """a conformant HAP-BLE accessory behind the GATT table of the case: reassembles requests per characteristic with its own
+    code, opens / seals fragments with its own AEAD and counters, answers with a scripted status / body fragmented at a size of
+    its own choosing, and keeps the log the oracles read"""
+
+    def __init__(self, case):
+        self.case = case
+        self.step = 0
+        self.desc = {}  # descriptor handle -> value
+        self.session = None  # [c2a aead, a2c aead, rx counter, tx counter]
+        self.partial = {}  # characteristic handle -> [opcode, tid, iid, expected length, data]
+        self.outbox = {}  # characteristic handle -> fragments to hand out on GATT reads
+        self.writes = []  # (characteristic handle, length on the radio, with-response flag)
+        self.requests = []  # (characteristic handle, opcode, tid, iid, body)
+        self.problems = []
+        self.reply = None  # (handle, opcode, tid, iid, body) -> (status, body, fragment size, short header)
+
+    def start_session(self, c2a, a2c):
+        self.session = [ChaCha20Poly1305(c2a), ChaCha20Poly1305(a2c), 0, 0]
+
+    def end_session(self):
+        self.session = None
+
+    def gatt_write(self, handle, value, response):
+        self.writes.append((handle, len(value), bool(response)))
+        if self.session is not None:
+            try:
+                value = self.session[0].decrypt(nonce(self.session[2]), value, b"")
+            except Exception:  # noqa: BLE001
+                self.problems.append(f"GATT write #{len(self.writes)} ({len(value)} bytes) does not authenticate under the session key with counter {self.session[2]}")
+                return
+            self.session[2] += 1
+        st = self.partial.get(handle)
+        if st is None:
+            if len(value) < 5:
+                self.problems.append(f"first fragment of {len(value)} bytes is shorter than the 5-byte request header")
+                return
+            ctrl, op, tid, iid = struct.unpack("<BBBH", value[:5])
+            if ctrl & 0x8E:
+                self.problems.append(f"first fragment has control byte 0x{ctrl:02x} (continuation / response bits set)")
+                return
+            if len(value) == 5:
+                return self._complete(handle, op, tid, iid, b"")
+            if len(value) < 7:
+                self.problems.append("first fragment ends inside the body length field")
+                return
+            ln = struct.unpack("<H", value[5:7])[0]
+            st = self.partial[handle] = [op, tid, iid, ln, bytes(value[7:])]
+        else:
+            if len(value) < 2 or not value[0] & 0x80:
+                self.problems.append("a fragment inside a transaction lacks the continuation flag")
+                return
+            if value[1] != st[1]:
+                self.problems.append(f"continuation fragment carries tid {value[1]}, the transaction was opened with tid {st[1]}")
+                return
+            st[4] += bytes(value[2:])
+        if len(st[4]) > st[3]:
+            self.problems.append(f"{len(st[4])} body bytes arrived, the header announced {st[3]}")
+            del self.partial[handle]
+        elif len(st[4]) == st[3]:
+            del self.partial[handle]
+            self._complete(handle, st[0], st[1], st[2], st[4])
+
+    def _complete(self, handle, op, tid, iid, body):
+        self.requests.append((handle, op, tid, iid, body))
+        status, rbody, rfs, short = self.reply(handle, op, tid, iid, body)
+        if not rbody and short:
+            frags = [struct.pack("<BBB", 0x02, tid, status)]
+        else:
+            k = max(0, rfs - 5)
+            frags = [struct.pack("<BBBH", 0x02, tid, status, len(rbody)) + rbody[:k]]
+            frags += [bytes([0x82, tid]) + rbody[o:o + rfs - 2] for o in range(k, len(rbody), rfs - 2)]
+        if self.session is not None:
+            sealed = []
+            for f in frags:
+                sealed.append(self.session[1].encrypt(nonce(self.session[3]), f, b""))
+                self.session[3] += 1
+            frags = sealed
+        self.outbox[handle] = frags
+
+    def gatt_read(self, handle):
+        q = self.outbox.get(handle)
+        if not q:
+            raise _Starved()
+        return q.pop(0)
+
+
+class _Radio:
+    """what bleak's platform backend provides to BleakClient - nothing of the client wrapper is replaced"""
+
+    def __init__(self, address_or_ble_device, **kwargs):
+        world = kwargs["c17_world"]
+        self.address = address_or_ble_device
+        self.name = address_or_ble_device
+        self.world = world
+        self.services = world["services"]
+        kind, mtu = world["mtu_kind"], world["mtu"]
+        self._reported = 23 if kind == "unacquired" else mtu
+        if kind != "no-attr":
+            self._mtu_size = None if kind == "unacquired" else mtu  # BlueZ style: None until the MTU has been acquired
+        self.is_connected = True
+
+    @property
+    def mtu_size(self):
+        return self._reported
+
+    async def write_gatt_char(self, characteristic, data, response):
+        self.world["acc"].gatt_write(characteristic.handle, bytes(data), response)
+
+    async def read_gatt_char(self, characteristic, **kwargs):
+        return bytearray(self.world["acc"].gatt_read(characteristic.handle))
+
+    async def read_gatt_descriptor(self, descriptor, **kwargs):
+        return bytearray(self.world["acc"].desc[descriptor.handle])
+
+    async def disconnect(self):
+        self.is_connected = False
+        return True
+
+
+def _ble_world(case, acc):
+    from bleak.backends.characteristic import BleakGATTCharacteristic
+    from bleak.backends.descriptor import BleakGATTDescriptor
+    from bleak.backends.service import BleakGATTService, BleakGATTServiceCollection
+    coll = BleakGATTServiceCollection()
+    for n, uuid in enumerate(case["services"]):
+        coll.add_service(BleakGATTService(None, 1 + 100 * n, uuid))
+    for c in case["chars"]:
+        svc = coll.services[1 + 100 * c["svc"]]
+
+        def mw(c=c):
+            return c["mwwrs"] if acc.step < c.get("late_from", 1 << 30) else c["mwwrs_late"]
+        ch = BleakGATTCharacteristic(None, c["handle"], c["uuid"], list(c["props"]), mw, svc)
+        coll.add_characteristic(ch)
+        coll.add_descriptor(BleakGATTDescriptor(None, c["handle"] + 1, IID_DESCRIPTOR, ch))
+        acc.desc[c["handle"] + 1] = struct.pack("<H", c["iid"])
+    return {"services": coll, "acc": acc, "mtu": case["mtu"], "mtu_kind": case["mtu_kind"]}
+
+
+def _ble_limit(case, c, step):
+    """the largest value one GATT write may carry for this request, from what the stack reports - not from the library"""
+    att = HAP_MIN_ATT_MTU if case["mtu_kind"] == "unacquired" else max(case["mtu"], HAP_MIN_ATT_MTU)
+    mw = c["mwwrs"] if step < c.get("late_from", 1 << 30) else c["mwwrs_late"]
+    return max(att - ATT_HEADER, mw or 0)
+
+
+async def _ble_client_history(case):
+    """-> (signature, what, step index) of the first violated requirement, or None"""
+    import random as _random
+    import warnings
+    from unittest import mock
+
+    from aiohomekit.controller.ble.bleak import AIOHomeKitBleakClient
+    acc = _BleAccessory(case)
+    world = _ble_world(case, acc)
+    with warnings.catch_warnings():
+        warnings.simplefilter("ignore")
+        client = AIOHomeKitBleakClient("C1:70:00:%02X:%02X:%02X" % (case["mtu"] % 256, case["mtu"] // 256, case["libseed"] % 256), backend=_Radio, c17_world=world)
+    sessions = 0
+    ek = dk = None
+    with mock.patch.object(bc, "random", _random.Random(case["libseed"])):
+        for n, s in enumerate(case["steps"]):
+            acc.step = n
+            c = case["chars"][s["char"]]
+            entry = s["entry"]
+            secure = bool(s["secure"]) and entry != "pairing"
+            if secure and ek is None:
+                sessions += 1
+                c2a, a2c = _session_key(case["libseed"], sessions, 0), _session_key(case["libseed"], sessions, 1)
+                ek, dk = EncryptionKey(c2a), DecryptionKey(a2c)
+                acc.start_session(c2a, a2c)
+            elif not secure and ek is not None:
+                ek = dk = None
+                acc.end_session()
+            del acc.writes[:], acc.requests[:], acc.problems[:]
+            acc.partial.clear()
+            acc.outbox.clear()
+            limit = _ble_limit(case, c, n)
+            kind = ("encrypted" if secure else "plain") + " " + entry
+            where = f"step {n} ({kind} on handle {c['handle']}, ATT_MTU {case['mtu']}/{case['mtu_kind']}, history {[('E' if x['secure'] and x['entry'] != 'pairing' else 'P') + str(x['char']) for x in case['steps'][:n + 1]]})"
+            body = _pattern(s["len"], n)
+            rvalue = _pattern(s["rlen"], n + 40)
+            rfs = max(8, s["rfs"])
+            # ---- what the caller asks for, what a conformant accessory must therefore see, and what it answers
+            if entry == "request":
+                want_op, want_body = s["opcode"], body
+                script = [(s["rst"], rvalue)]
+            elif entry == "char_write":
+                want_op, want_body = bp.OpCode.CHAR_WRITE.value, None
+                script = [(s["rst"], _tlv8(0x01, rvalue) if s["rst"] == 0 else b"")]
+            elif entry == "char_read":
+                want_op, want_body = bp.OpCode.CHAR_READ.value, b""
+                script = [(s["rst"], _tlv8(0x01, rvalue) if s["rst"] == 0 else b"")]
+            else:
+                want_op, want_body = bp.OpCode.CHAR_WRITE.value, None
+                inner = _tlv8(0x06, b"\x02") + _tlv8(0x03, rvalue)
+                pf = s.get("pfrag", 0)
+                if pf and len(inner) > pf:
+                    chunks = [inner[o:o + pf] for o in range(0, len(inner), pf)]
+                    script = [(0, _tlv8(0x01, _tlv8(0x0C, ch))) for ch in chunks[:-1]] + [(0, _tlv8(0x01, _tlv8(0x0D, chunks[-1])))]
+                else:
+                    script = [(0, _tlv8(0x01, inner))]
+            served = []
+
+            def reply(handle, op, tid, iid, rb, script=script, served=served, rfs=rfs, short=s.get("short", False)):
+                st, b = script[min(len(served), len(script) - 1)]
+                served.append((st, b))
+                return st, b, rfs, short
+            acc.reply = reply
+            result = raised = None
+            try:
+                handle = await client.get_characteristic(case["services"][c["svc"]].upper(), c["uuid"].upper(), c["iid"])
+                if handle.handle != c["handle"]:
+                    return ("ble-client/wrong-characteristic", f"{where}: get_characteristic(iid={c['iid']}) resolved to GATT handle {handle.handle}, the characteristic with that instance id is handle {c['handle']}", n)
+                if entry == "request":
+                    result = await bc.ble_request(client, ek, dk, bp.OpCode(s["opcode"]), handle, c["iid"], body if (body or not s.get("none_body")) else None)
+                elif entry == "char_write":
+                    result = await bc.char_write(client, ek, dk, handle, c["iid"], body)
+                elif entry == "char_read":
+                    result = await bc.char_read(client, ek, dk, handle, c["iid"])
+                else:
+                    def machine(body=body):
+                        got = yield ([(0x06, b"\x01"), (0x03, body)] if body else [(0x06, b"\x01")]), []
+                        return got
+                    result = await bc.drive_pairing_state_machine(client, c["uuid"].upper(), machine())
+            except _Starved:
+                raised = "starved"
+            except bc.PDUStatusError as e:
+                raised = ("status", e.status if isinstance(e.status, int) else getattr(e.status, "value", e.status))
+            except Exception as e:  # noqa: BLE001
+                raised = ("exc", f"{type(e).__name__}: {e}"[:200])
+            # ---- request side: every GATT write fits what was negotiated for THIS request; the accessory reassembles the request
+            wrong = [h for h, _, _ in acc.writes if h != c["handle"]]
+            if wrong:
+                return ("ble-client/wrong-characteristic", f"{where}: fragments were written to GATT handle(s) {sorted(set(wrong))}", n)
+            big = [ln for _, ln, _ in acc.writes if ln > limit]
+            if big:
+                return ("ble-client/too-large", f"{where}: body {s['len']} bytes: GATT writes of {[ln for _, ln, _ in acc.writes]} bytes, but one write can carry at most {limit} bytes"
+                        f" (ATT_MTU - 3{', each fragment including its 16-byte tag' if secure else ''})", n)
+            if acc.problems:
+                return ("ble-client/reassembly", f"{where}: body {s['len']} bytes: the accessory cannot take the request: {acc.problems[0]}", n)
+            if not acc.requests or acc.partial:
+                return ("ble-client/reassembly", f"{where}: body {s['len']} bytes: the accessory never saw a complete request ({len(acc.writes)} writes, raised={raised})", n)
+            for k, (h, op, tid, iid, got) in enumerate(acc.requests):
+                if want_body is not None:
+                    ok = got == want_body
+                else:
+                    tl = _tlv8_parse(got)
+                    d = dict(tl) if tl is not None else {}
+                    if entry == "char_write":
+                        ok = d.get(0x09) == b"\x01" and d.get(0x01, b"") == body and set(d) <= {0x01, 0x09}
+                    elif k == 0:
+                        inner_req = dict(_tlv8_parse(d.get(0x01, b"")) or [])
+                        ok = d.get(0x09) == b"\x01" and inner_req.get(0x06) == b"\x01" and inner_req.get(0x03, b"") == body
+                    else:  # acknowledgement of a pairing-level fragment
+                        ok = d.get(0x09) == b"\x01" and d.get(0x01) == bytes([0x0C, 0])
+                if (op, iid) != (want_op, c["iid"]) or not ok:
+                    return ("ble-client/reassembly", f"{where}: body {s['len']} bytes: the accessory reassembles opcode {op} iid {iid} body {hx(got)[:80]}.. ({len(got)} bytes),"
+                            f" the caller asked for opcode {want_op} iid {c['iid']} and its own {s['len']}-byte body", n)
+            if len(acc.requests) != len(script) and not (entry == "pairing" and raised):
+                return ("ble-client/reassembly", f"{where}: the accessory saw {len(acc.requests)} requests for one call that needs {len(script)}", n)
+            # ---- response side: the caller gets the accessory's status and body
+            if raised == "starved":
+                return ("ble-client/response", f"{where}: the library read more fragments than the accessory's response has", n)
+            if raised and raised[0] == "exc":
+                return ("ble-client/" + raised[1].split(":")[0], f"{where}: body {s['len']} bytes, response {s['rlen']} bytes in fragments of <= {rfs}: raised {raised[1]}", n)
+            if entry == "request":
+                want = (s["rst"], rvalue)
+                got = (result[0].value, bytes(result[1])) if result is not None else raised
+            elif entry in ("char_write", "char_read"):
+                want = rvalue if s["rst"] == 0 else ("status", s["rst"])
+                got = bytes(result) if result is not None else raised
+            else:
+                want = {0x06: b"\x02", 0x03: rvalue}
+                got = {int(k): bytes(v) for k, v in result.items()} if isinstance(result, dict) else (result if result is not None else raised)
+            if got != want:
+                return ("ble-client/response", f"{where}: the accessory answered status {s['rst']} with {s['rlen']} value bytes in fragments of <= {rfs}; the caller got {str(got)[:120]}", n)
+            if any(acc.outbox.values()):
+                return ("ble-client/response", f"{where}: the caller returned before reading all fragments of the response (the next request would read a stale fragment)", n)
+    return None
+
+
+def _gen_ble_history(rng, trial):
+    mtu_kind = rng.choice(["attr", "attr", "no-attr", "unacquired"])
+    mtu = rng.choice([23, 64, 100, 104, 158, 185, 247, 251, 515, 517, rng.randrange(23, 518)])
+    att = HAP_MIN_ATT_MTU if mtu_kind == "unacquired" else max(mtu, HAP_MIN_ATT_MTU)
+    services = [PAIRING_SERVICE] + ["%08x" % t + HAP_BASE for t in rng.sample([0x3E, 0x43, 0x49, 0x8A], rng.randrange(1, 3))]
+    chars, handle, iid = [], 10, rng.choice([1, 9, 250, 4000])
+    for u in PAIRING_CHARS:
+        chars.append({"svc": 0, "uuid": u})
+    for sv in range(1, len(services)):
+        us = ["%08x" % t + HAP_BASE for t in rng.sample([0x25, 0x08, 0x13, 0x23, 0x2F, 0xCE], rng.randrange(1, 4))]
+        if rng.random() < 0.3:
+            us.append(us[0])  # two characteristics of one type in one service: told apart by their instance id descriptors only
+        chars += [{"svc": sv, "uuid": u} for u in us]
+    for c in chars:
+        handle += rng.choice([3, 4, 7])
+        iid += rng.choice([1, 1, 2, 17])
+        mw = rng.choice([20, 20, att - 3, att - 3, 0, rng.choice([att - 3, 244, 512])])
+        c.update(handle=handle, iid=iid, props=rng.choice([["read", "write"], ["read", "write"], ["read", "write", "write-without-response"], ["write-without-response", "read"]]), mwwrs=mw)
+        if rng.random() < 0.2:
+            c.update(late_from=rng.randrange(1, 4), mwwrs_late=max(mw, rng.choice([att - 3, 244])))
+    nsteps = rng.randrange(2, 7)
+    focus = rng.sample(range(len(chars)), min(len(chars), rng.choice([1, 1, 2, 3])))  # few characteristics, so that each one is used repeatedly
+    # orders of plain / encrypted: every pattern appears over the trials (trial number gives the bit pattern, low bit first)
+    pattern = [(trial >> k) & 1 for k in range(nsteps)] if trial % 3 else [rng.randrange(2) for _ in range(nsteps)]
+    steps = []
+    for n in range(nsteps):
+        ci = rng.choice(focus)
+        c = chars[ci]
+        entry = rng.choice(BLE_ENTRIES)
+        if entry == "pairing" and (c["svc"] != 0 or [x["uuid"] for x in chars].count(c["uuid"]) != 1):
+            entry = "char_write"
+        limit = max(att - 3, c["mwwrs_late"] if n >= c.get("late_from", 1 << 30) else c["mwwrs"])
+        f = rng.choice([limit, limit - AEAD_TAG])
+        edge = rng.choice([f - 7, f - 7, 2 * f - 9, 3 * f - 11, 4 * f - 13]) + rng.choice([-1, 0, 0, 1, 2]) - rng.choice([0, 0, 0, 3, 5, 7, 9])
+        ln = rng.choice([0, 1, edge, edge, edge, edge, rng.randrange(0, 3 * limit), rng.randrange(0, 2600)])
+        ln = max(0, min(ln, 3000))
+        st = {"char": ci, "secure": bool(pattern[n]), "entry": entry, "opcode": rng.choice(list(bp.OpCode)).value, "len": ln,
+              "rlen": rng.choice([0, 0, 1, 2, 90, rng.randrange(0, 700)]), "rst": rng.choice([0, 0, 0, 0, rng.randrange(1, 7)]),
+              "rfs": rng.choice([limit, limit - AEAD_TAG, 20, rng.randrange(8, 200)]), "short": rng.random() < 0.3, "none_body": rng.random() < 0.5}
+        if entry == "pairing":
+            st["pfrag"] = rng.choice([0, 0, 50, 120, 255, 300])
+            st["len"] = min(st["len"], 1200)
+        if entry in ("char_read",):
+            st["len"] = 0
+        steps.append(st)
+    return {"stream": "ble-client", "mtu": mtu, "mtu_kind": mtu_kind, "libseed": rng.randrange(1 << 16), "services": services, "chars": chars, "steps": steps}
+
+
+def _grid_ble_histories(rng):
+    """every order of plain / encrypted requests of length 2 and 3 on ONE characteristic (and alternating over two), for every way the stack reports the ATT_MTU,
+    every request longer than one fragment of either mode"""
+    for mtu_kind, mtu in (("unacquired", 23), ("attr", 23), ("attr", 100), ("no-attr", 158), ("attr", 247), ("no-attr", 517)):
+        att = HAP_MIN_ATT_MTU if mtu_kind == "unacquired" else max(mtu, HAP_MIN_ATT_MTU)
+        for nsteps in (2, 3):
+            for bits in itertools.product((False, True), repeat=nsteps):
+                for nchar in (1, 2):
+                    mw = rng.choice([20, att - 3, 0])
+                    chars = [{"svc": 0, "uuid": PAIRING_CHARS[k], "handle": 20 + 3 * k, "iid": 7 + k, "props": ["read", "write"], "mwwrs": mw} for k in range(3)]
+                    chars += [{"svc": 1, "uuid": "%08x" % t + HAP_BASE, "handle": 40 + 3 * k, "iid": 30 + k, "props": ["read", "write"], "mwwrs": mw} for k, t in enumerate((0x25, 0x08))]
+                    steps = []
+                    for n, secure in enumerate(bits):
+                        ln = rng.choice([att - 3 - 7 + 1, att - 3 - AEAD_TAG - 7 + 1, 2 * (att - 3) - 9 - rng.randrange(0, 20), 5 * att // 2])
+                        entry = rng.choice(["request", "char_write"])
+                        steps.append({"char": 3 + (n % nchar), "secure": secure, "entry": entry, "opcode": rng.choice([1, 2, 4]), "len": ln, "rlen": rng.choice([0, 3, 200]), "rst": 0,
+                                      "rfs": rng.choice([att - 3, att - 3 - AEAD_TAG]), "short": False, "none_body": False})
+                    yield {"stream": "ble-client", "mtu": mtu, "mtu_kind": mtu_kind, "libseed": rng.randrange(1 << 16), "services": [PAIRING_SERVICE, "00000043" + HAP_BASE], "chars": chars, "steps": steps}
+
+
+def ble_client_histories(ctx: Ctx):
+    rng = ctx.rng
+    loop = asyncio.new_event_loop()
+    try:
+        grid = list(_grid_ble_histories(rng))
+        for trial in range(len(grid) + ctx.budget(500, 8000)):
+            case = grid[trial] if trial < len(grid) else _gen_ble_history(rng, trial)
+            ctx.evaluations += len(case["steps"])
+            try:
+                bad = loop.run_until_complete(_ble_client_history(case))
+            except Exception as e:  # noqa: BLE001 - nothing the library does may take the check down
+                bad = ("ble-client/" + type(e).__name__, f"history could not be completed: {type(e).__name__}: {e}"[:300], 0)
+            if bad:
+                case["steps"] = case["steps"][:bad[2] + 1]
+                ctx.violation(bad[0], bad[1], case)
+            modes = "".join("E" if s["secure"] and s["entry"] != "pairing" else "P" for s in case["steps"])
+            ctx.nontrivial.add(("ble-client", modes, case["mtu_kind"], min(case["mtu"], 100) if case["mtu"] <= 100 else case["mtu"] // 64 * 64))
+            same = {}
+            for s in case["steps"]:
+                same.setdefault(s["char"], set()).add("E" if s["secure"] and s["entry"] != "pairing" else "P")
+                ctx.dist["ble-client:" + s["entry"] + (":enc" if s["secure"] and s["entry"] != "pairing" else "")] += 1
+            ctx.dist["ble-client-history:" + ("both modes on one characteristic" if any(len(v) == 2 for v in same.values()) else "one mode per characteristic")] += 1
+            if trial == 3:
+                ctx.sample(case)
+    finally:
+        loop.close()
+
+
+# ====================================================================================================================
+# CoAP: batches through the public CoAPHomeKitConnection entry points against an in-memory accessory that opens the
+# request with its own AEAD, decodes the batch with its own decoder and records what it received per item.
+# ====================================================================================================================
+COAP_FMT = {  # format -> (GATT presentation format, struct code)
+    "bool": (0x01, "<?"), "uint8": (0x04, "<B"), "uint16": (0x06, "<H"), "uint32": (0x08, "<I"), "uint64": (0x0A, "<Q"), "int": (0x10, "<i"),
+    "float": (0x14, "<f"), "string": (0x19, None), "data": (0x1B, None), "raw": (None, None)}
+# permission mixes: secure read 0x10, secure write 0x20, timed write 0x08, additional authorization 0x04, hidden 0x40, events 0x80 / 0x100, broadcast 0x200;
+# 0x01 / 0x02 are the INSECURE read / write bits and give no right inside the session
+COAP_PROPS = [0x10 | 0x80, 0x20, 0x30 | 0x80, 0x30 | 0x80, 0x38 | 0x80, 0x28, 0x70 | 0x80, 0x50, 0x34, 0x00, 0x01 | 0x02, 0x10 | 0x02 | 0x80 | 0x100 | 0x200, 0x20 | 0x01]
+COAP_K_C2A, COAP_K_A2C, COAP_K_EVT = bytes(range(60, 92)), bytes(range(120, 152)), bytes(range(7, 39))
+COAP_OPS = {"write": 0x02, "read": 0x03, "sub": 0x0B, "unsub": 0x0C}
+
+
+def _coap_arg(fmt, j):
+    """the Python value a caller passes for the JSON form kept in the case"""
+    return bytes.fromhex(j) if fmt == "raw" else j
+
+
+def _coap_raw(fmt, j):
+    """the bytes an accessory stores for it - encoded here, not by the library"""
+    code = COAP_FMT[fmt][1]
+    if code is not None:
+        return struct.pack(code, j)
+    return j.encode("utf-8") if fmt == "string" else bytes.fromhex(j)
+
+
+def _coap_same(fmt, got, raw):
+    """does the value the library reports mean the bytes `raw` of the accessory?"""
+    code = COAP_FMT[fmt][1]
+    try:
+        if code is not None:
+            want = struct.unpack(code, raw)[0]
+            return type(got) in (bool, int, float) and (got is want if fmt == "bool" else (not isinstance(got, bool) and got == want))
+        if fmt == "string":
+            return got == raw.decode("utf-8")
+        return (isinstance(got, (bytes, bytearray)) and bytes(got) == raw) or (isinstance(got, str) and fmt == "data" and bytes.fromhex(got) == raw)
+    except Exception:  # noqa: BLE001
+        return False
+
+
+def _coap_gen_value(rng, fmt):
+    if fmt == "bool":
+        return rng.random() < 0.5
+    if fmt in ("uint8", "uint16", "uint32", "uint64"):
+        top = 2 ** {"uint8": 8, "uint16": 16, "uint32": 32, "uint64": 64}[fmt] - 1
+        return rng.choice([0, 1, top, rng.randint(0, top)])
+    if fmt == "int":
+        return rng.choice([0, -1, 2 ** 31 - 1, -2 ** 31, rng.randint(-100000, 100000)])
+    if fmt == "float":
+        return rng.randint(-1440, 1440) / 4  # exact in binary32
+    if fmt == "string":
+        return "".join(rng.choice("abcXYZ 09-é") for _ in range(rng.choice([1, 3, 12, 40, 300])))
+    return bytes(rng.randrange(256) for _ in range(rng.choice([1, 2, 4, 9, 270]))).hex()
+
+
+def _coap_database(layout):
+    """the accessory database as the TLV8 body of a database read"""
+    accs = []
+    for aid in sorted({c["aid"] for c in layout}):
+        sv = []
+        for s in sorted({c["svc"] for c in layout if c["aid"] == aid}):
+            cs = []
+            for c in layout:
+                if (c["aid"], c["svc"]) != (aid, s):
+                    continue
+                t = _tlv8(0x04, struct.pack("<H", c["type"])) + _tlv8(0x05, struct.pack("<H", c["iid"])) + _tlv8(0x0A, struct.pack("<H", c["props"]))
+                if COAP_FMT[c["fmt"]][0] is not None:
+                    t += _tlv8(0x0C, struct.pack("<BbHBH", COAP_FMT[c["fmt"]][0], 0, 0x2700, 1, 0))
+                cs.append(_tlv8(0x13, t))
+            sv.append(_tlv8(0x15, _tlv8(0x07, struct.pack("<H", 2000 + s)) + _tlv8(0x06, struct.pack("<H", 0x43 + s)) + _tlv8(0x14, b"\x00\x00".join(cs))))
+        accs.append(_tlv8(0x19, _tlv8(0x1A, struct.pack("<H", aid)) + _tlv8(0x16, b"\x00\x00".join(sv))))
+    return _tlv8(0x18, b"\x00\x00".join(accs))
+
+
+class _CoapAccessory:
+    """conformant HAP-over-CoAP accessory + the aiocoap client context in front of it (request(msg).response, shutdown())"""
+
+    def __init__(self, layout):
+        self.by_iid = {c["iid"]: c for c in layout}
+        self.values = {c["iid"]: _coap_raw(c["fmt"], c["value"]) for c in layout}
+        self.db = _coap_database(layout)
+        self.dec, self.enc = ChaCha20Poly1305(COAP_K_C2A), ChaCha20Poly1305(COAP_K_A2C)
+        self.rx = self.tx = 0
+        self.script = {}  # iid -> status to answer with during the current operation
+        self.posts = []  # per POST of the current operation: list of [opcode, tid, iid, body, status answered, response body]
+        self.problems = []
+
+    def request(self, msg):
+        import types
+
+        from aiocoap.numbers.codes import Code
+        out = b""
+        try:
+            plain = self.dec.decrypt(struct.pack("<4xQ", self.rx), bytes(msg.payload), b"")
+            self.rx += 1
+        except Exception:  # noqa: BLE001
+            self.problems.append(f"request does not authenticate under the session key with counter {self.rx}")
+            plain = None
+        items = []
+        off = 0
+        while plain is not None and off < len(plain):
+            if off + 7 > len(plain):
+                self.problems.append("request ends inside a PDU header")
+                break
+            control, opcode, tid, iid, ln = struct.unpack("<BBBHH", plain[off:off + 7])
+            if off + 7 + ln > len(plain):
+                self.problems.append("request ends inside a PDU body")
+                break
+            body = plain[off + 7:off + 7 + ln]
+            off += 7 + ln
+            if control != 0:
+                self.problems.append(f"request PDU with control byte 0x{control:02x}")
+            st, rb = self.serve(opcode, iid, body)
+            items.append([opcode, tid, iid, body, st, rb])
+            out += struct.pack("<BBBH", 0x02, tid, st, len(rb)) + rb
+        self.posts.append(items)
+        payload = self.enc.encrypt(struct.pack("<4xQ", self.tx), out, b"")
+        self.tx += 1
+        fut = asyncio.get_running_loop().create_future()
+        fut.set_result(types.SimpleNamespace(code=Code.CHANGED, payload=payload))
+        return types.SimpleNamespace(response=fut)
+
+    async def shutdown(self):
+        pass
+
+    def serve(self, opcode, iid, body):
+        c = self.by_iid.get(iid)
+        if opcode == 0x09:
+            return 0, self.db
+        st = self.script.get(iid)
+        if c is None:
+            return st or 4, b""
+        if opcode == 0x03:
+            st = st if st is not None else (0 if c["props"] & 0x10 else 6)
+            return st, (_tlv8(0x01, self.values[iid]) if st == 0 else b"")
+        if opcode == 0x02:
+            st = st if st is not None else (0 if c["props"] & 0x20 else 6)
+            if st == 0:
+                tl = _tlv8_parse(body)
+                v = dict(tl).get(0x01) if tl is not None else None
+                code = COAP_FMT[c["fmt"]][1]
+                if v is None or (code is not None and len(v) != struct.calcsize(code)):
+                    return 6, b""  # a value this characteristic cannot hold
+                self.values[iid] = v
+            return st, b""
+        if opcode in (0x0B, 0x0C):
+            return (st if st is not None else (0 if c["props"] & 0x80 else 6)), b""
+        return 1, b""
+
+
+def _status_of(entry):
+    if entry is None:
+        return None
+    return entry.get("status") if isinstance(entry, dict) else "?"
+
+
+async def _coap_conn_history(case):
+    """-> (signature, what, op index) of the first violated requirement, or None"""
+    import aiohomekit.controller.coap.connection as coapc
+    layout = case["layout"]
+    acc = _CoapAccessory(layout)
+    conn = coapc.CoAPHomeKitConnection(None, "fd00::17", 5683)
+    # an established session (what pair-verify leaves behind); from here on everything is the library's own code
+    conn.enc_ctx = coapc.EncryptionContext(ChaCha20Poly1305(COAP_K_A2C), ChaCha20Poly1305(COAP_K_C2A), ChaCha20Poly1305(COAP_K_EVT), "coap://[fd00::17]:5683/", acc)
+    fmt = {c["iid"]: c["fmt"] for c in layout}
+    props = {c["iid"]: c["props"] for c in layout}
+    # ---- database sweep: per service one batch read of the readable characteristics; value i belongs to characteristic i
+    acc.script = {int(k): v for k, v in case.get("sweep_err", {}).items()}
+    try:
+        dump = await conn.get_accessory_info()
+    except Exception as e:  # noqa: BLE001
+        return ("coap-conn/sweep-" + type(e).__name__, f"get_accessory_info raised {type(e).__name__}: {e}"[:300], -1)
+    if acc.problems:
+        return ("coap-conn/request", f"database sweep: {acc.problems[0]}", -1)
+    seen = {}
+    for a in dump:
+        for s in a["services"]:
+            for ch in s["characteristics"]:
+                seen[(a["aid"], ch["iid"])] = ch
+    for c in layout:
+        ent = seen.get((c["aid"], c["iid"]))
+        if ent is None:
+            return ("coap-conn/sweep-attribution", f"database sweep: characteristic {c['aid']}.{c['iid']} of the accessory's database is missing from the result", -1)
+        served = [it for post in acc.posts for it in post if it[0] == 0x03 and it[2] == c["iid"]]
+        answered = served[-1][4] if served else None
+        if answered == 0:
+            if "value" not in ent or not _coap_same(c["fmt"], ent["value"], acc.values[c["iid"]]):
+                return ("coap-conn/sweep-attribution", f"database sweep: the accessory answered the read of iid {c['iid']} ({c['fmt']}) with {hx(acc.values[c['iid']])[:40]}, the database reports {ent.get('value', '(nothing)')!r:.60} for it "
+                        f"(batches: {[[(it[2], it[4]) for it in post] for post in acc.posts if post and post[0][0] == 0x03]})", -1)
+        elif "value" in ent and ent["value"] is not None:
+            return ("coap-conn/sweep-attribution", f"database sweep: iid {c['iid']} was {'refused with status ' + str(answered) if served else 'never read'}, yet the database reports the value {ent['value']!r:.60} for it", -1)
+    # ---- operations on the one connection
+    for n, op in enumerate(case["ops"]):
+        kind = op["op"]
+        acc.script = {int(k): v for k, v in op.get("script", {}).items()}
+        del acc.posts[:], acc.problems[:]
+        items = [tuple(it) for it in op["items"]]
+        ids = [(a, i) for a, i, *_ in items]
+        label = f"op {n}: {kind} of " + ", ".join(f"{a}.{i}" + (f"={v!r:.24}" if kind == "write" else "") + f"[{fmt.get(i, 'unknown')},0x{props.get(i, 0):x}]" for a, i, *v in items)
+        result = raised = None
+        try:
+            if kind == "write":
+                result = await conn.write_characteristics([(a, i, _coap_arg(fmt[i], v)) for a, i, v in items])
+            elif kind == "read":
+                arg = ids if op.get("as", "list") == "list" else (tuple(ids) if op["as"] == "tuple" else dict.fromkeys(ids).keys())
+                result = await conn.read_characteristics(arg)
+            elif kind == "sub":
+                result = await conn.subscribe_to(ids)
+            else:
+                result = await conn.unsubscribe_from(ids)
+        except Exception as e:  # noqa: BLE001
+            raised = f"{type(e).__name__}: {e}"[:200]
+        need = {"write": 0x20, "read": 0x10, "sub": 0x80, "unsub": 0x80}[kind]
+        refusable = {i for _, i in ids if not props.get(i, 0) & need}  # items a controller may turn down itself: the database says the accessory would
+        if acc.problems:
+            return ("coap-conn/request", f"{label}: {acc.problems[0]}", n)
+        got = [it for post in acc.posts for it in post]
+        # request side: what the accessory received, item by item, is what the caller asked for - under the item's own instance id
+        want = [(i, _tlv8(0x01, _coap_raw(fmt[i], v[0])) if kind == "write" else b"") for _, i, *v in items]
+        recv = ", ".join(f"iid {it[2]} <- {hx(it[3])[:28]}" for it in got) or "nothing"
+        delivered = set()
+        wanted = dict(want)
+        for it in got:
+            if it[0] != COAP_OPS[kind]:
+                return ("coap-conn/request-attribution", f"{label}: the accessory received opcode 0x{it[0]:02x} for iid {it[2]}", n)
+            if it[2] not in wanted or it[2] in delivered:
+                return ("coap-conn/request-attribution", f"{label}: the accessory received ({recv}); the PDU for iid {it[2]} is {'a second one for that item' if it[2] in delivered else 'for an instance id that was not requested'}", n)
+            if kind == "write":
+                tl = _tlv8_parse(it[3])
+                v = dict(tl).get(0x01) if tl is not None else None
+                mine = dict(_tlv8_parse(wanted[it[2]]))[0x01]
+                if v != mine:
+                    whose = [f"{a}.{i}" for a, i, x in items if i != it[2] and _coap_raw(fmt[i], x) == v]
+                    return ("coap-conn/request-attribution", f"{label}: the accessory received ({recv}): iid {it[2]} carries {hx(v or b'')[:40]}"
+                            + (f", which is the value given for {whose[0]}" if whose else "") + f"; the caller's value for it encodes as {hx(mine)[:40]}", n)
+            delivered.add(it[2])
+        missing = [i for _, i in ids if i not in delivered]
+        if raised is not None:
+            if not (set(missing) & refusable):
+                return ("coap-conn/raised", f"{label}: raised {raised} (the accessory received: {recv})", n)
+            continue  # the call failed as a whole because of an item the controller refuses itself: nothing was attributed to anybody
+        if not isinstance(result, dict):
+            return ("coap-conn/result", f"{label}: returned {result!r:.80}", n)
+        for i in missing:
+            key = next(k for k in ids if k[1] == i)
+            if i not in refusable:
+                return ("coap-conn/request-dropped", f"{label}: the accessory received ({recv}): nothing for iid {i}, which the accessory's database allows", n)
+            if _status_of(result.get(key)) in (None, 0):
+                return ("coap-conn/request-dropped", f"{label}: iid {i} was never sent (the accessory received: {recv}) and the result {result!r:.120} reports no error for it", n)
+        # response side: the outcome the accessory gave for an item is the outcome reported for that item
+        for key in result:
+            if key not in ids:
+                return ("coap-conn/attribution", f"{label}: the result has an entry for {key}, which was not requested", n)
+        answered = {it[2]: it for it in got}
+        for key in ids:
+            it = answered.get(key[1])
+            if it is None:
+                continue
+            ent = result.get(key)
+            if it[4] != 0:
+                if _status_of(ent) != -it[4]:
+                    return ("coap-conn/attribution", f"{label}: the accessory refused iid {key[1]} with status {it[4]} (per item: {[(x[2], x[4]) for x in got]}); the result reports {ent!r:.80} for it", n)
+            elif kind == "read":
+                if not isinstance(ent, dict) or "value" not in ent or not _coap_same(fmt[key[1]], ent["value"], dict(_tlv8_parse(it[5]))[0x01]):
+                    return ("coap-conn/attribution", f"{label}: the accessory answered iid {key[1]} with the value {hx(dict(_tlv8_parse(it[5]))[0x01])[:40]} (per item: {[(x[2], x[4]) for x in got]}); "
+                            f"the result reports {ent!r:.80} for it", n)
+            elif ent is not None and _status_of(ent) not in (None, 0):
+                return ("coap-conn/attribution", f"{label}: the accessory accepted iid {key[1]} (per item: {[(x[2], x[4]) for x in got]}); the result reports {ent!r:.80} for it", n)
+    return None
+
+
+def _gen_coap_history(rng):
+    nchar = rng.randrange(6, 13)
+    fmts = list(COAP_FMT)
+    rng.shuffle(fmts)
+    prs = list(COAP_PROPS)
+    rng.shuffle(prs)
+    iids = rng.sample(range(2, 400), nchar) if rng.random() < 0.8 else rng.sample([2, 255, 256, 257, 1000, 4660, 65535, 65534, 300, 301, 302, 9], nchar)
+    two = rng.random() < 0.3
+    layout = []
+    for k in range(nchar):
+        f = fmts[k % len(fmts)]
+        layout.append({"aid": 2 if two and k >= nchar // 2 else 1, "svc": rng.randrange(0, 3), "iid": iids[k], "type": 0x100 + k, "fmt": f, "props": prs[k % len(prs)] if rng.random() < 0.85 else rng.choice(COAP_PROPS),
+                       "value": _coap_gen_value(rng, f)})
+    # every service has a readable characteristic (an accessory information / name at least): the sweep of a service without one is an EMPTY batch, outside the property's 1..6 items
+    for c in layout:
+        if not any(o["props"] & 0x10 for o in layout if (o["aid"], o["svc"]) == (c["aid"], c["svc"])):
+            home = [o for o in layout if o["aid"] == c["aid"] and o["props"] & 0x10]
+            if home:
+                c["svc"] = home[0]["svc"]
+            else:
+                c["props"] = 0x10 | 0x80
+    readable = [c["iid"] for c in layout if c["props"] & 0x10]
+    sweep_err = {str(i): rng.randrange(1, 7) for i in readable if rng.random() < 0.15}
+    ops = []
+    for _ in range(rng.randrange(2, 6)):
+        kind = rng.choice(["write", "write", "write", "read", "read", "sub", "unsub"])
+        n = rng.randrange(1, 7)
+        chosen = rng.sample(layout, min(n, len(layout)))  # any order, independent of the database order
+        if rng.random() < 0.25:
+            chosen.sort(key=lambda c: c["iid"], reverse=rng.random() < 0.5)
+        need = {"write": 0x20, "read": 0x10, "sub": 0x80, "unsub": 0x80}[kind]
+        items = [[c["aid"], c["iid"]] + ([_coap_gen_value(rng, c["fmt"])] if kind == "write" else []) for c in chosen]
+        if kind != "write" and rng.random() < 0.2:
+            items.insert(rng.randrange(len(items) + 1), [1, 500 + rng.randrange(50)])  # an instance id the database does not have
+            items = items[:6]
+        script = {str(c["iid"]): rng.randrange(1, 7) for c in chosen if rng.random() < (0.2 if c["props"] & need else 0.5)}
+        op = {"op": kind, "items": items, "script": script}
+        if kind == "read":
+            op["as"] = rng.choice(["list", "list", "tuple", "keys"])
+        ops.append(op)
+    return {"stream": "coap-conn", "layout": layout, "sweep_err": sweep_err, "ops": ops}
+
+
+def _grid_coap_histories(rng):
+    """every entry point x every vector over {the database allows the item, it does not} for batches of 1..4 items (positions of a refusable item: all),
+    on a database with every permission mix and every format"""
+    fmts = list(COAP_FMT)
+    for kind, need in (("write", 0x20), ("read", 0x10), ("sub", 0x80), ("unsub", 0x80)):
+        for n in range(1, 5):
+            vectors = list(itertools.product((True, False), repeat=n))
+            for g in range(0, len(vectors), 4):
+                rng.shuffle(fmts)
+                iids = rng.sample(range(2, 600), len(COAP_PROPS))
+                layout = [{"aid": 1, "svc": k % 2, "iid": iids[k], "type": 0x200 + k, "fmt": fmts[k % len(fmts)], "props": p, "value": _coap_gen_value(rng, fmts[k % len(fmts)])} for k, p in enumerate(COAP_PROPS)]
+                for c in layout:
+                    if not c["props"] & 0x10:
+                        c["svc"] = 0  # COAP_PROPS[0] is readable: no service without a readable characteristic
+                ops = []
+                for vec in vectors[g:g + 4]:
+                    yes = rng.sample([c for c in layout if c["props"] & need], n)
+                    no = rng.sample([c for c in layout if not c["props"] & need], n)
+                    chosen = [yes[k] if ok else no[k] for k, ok in enumerate(vec)]
+                    ops.append({"op": kind, "items": [[c["aid"], c["iid"]] + ([_coap_gen_value(rng, c["fmt"])] if kind == "write" else []) for c in chosen],
+                                "script": {str(c["iid"]): rng.randrange(1, 7) for c in chosen if rng.random() < 0.2}, "as": "list"})
+                yield {"stream": "coap-conn", "layout": layout, "sweep_err": {}, "ops": ops}
+
+
+def coap_connection_batches(ctx: Ctx):
+    rng = ctx.rng
+    loop = asyncio.new_event_loop()
+    try:
+        ctx.notes.append("coap-conn: generated databases give every service a readable characteristic and batches have 1..6 items: an EMPTY batch (the sweep of a service without a readable "
+                         "characteristic, read_/write_characteristics([]), subscribe_to([]), read_characteristics(<generator>)) is answered with an empty payload that decode_all_pdus cannot "
+                         "decode (struct.error on the unchanged tree) - outside the property's quantifier, not gated")
+        grid = list(_grid_coap_histories(rng))
+        for trial in range(len(grid) + ctx.budget(300, 5000)):
+            case = grid[trial] if trial < len(grid) else _gen_coap_history(rng)
+            ctx.evaluations += 1 + len(case["ops"])
+            try:
+                bad = loop.run_until_complete(_coap_conn_history(case))
+            except Exception as e:  # noqa: BLE001 - nothing the library does may take the check down
+                bad = ("coap-conn/" + type(e).__name__, f"history could not be completed: {type(e).__name__}: {e}"[:300], len(case["ops"]))
+            if bad:
+                case["ops"] = case["ops"][:bad[2] + 1]
+                ctx.violation(bad[0], bad[1], case)
+            pr = {c["iid"]: c["props"] for c in case["layout"]}
+            for op in case["ops"]:
+                need = {"write": 0x20, "read": 0x10, "sub": 0x80, "unsub": 0x80}[op["op"]]
+                shape = tuple(bool(pr.get(it[1], 0) & need) for it in op["items"])
+                ctx.nontrivial.add(("coap-conn", op["op"], shape, tuple(sorted(op.get("script", {}).values()))[:3]))
+                ctx.dist["coap-conn:" + op["op"] + (":with an item the database does not allow" if not all(shape) else "")] += 1
+            if trial == 2:
+                ctx.sample(case)
+    finally:
+        loop.close()
